@@ -1,0 +1,67 @@
+//go:build verif
+
+// Contracts for the gvc verifier (/verif). This file contains comments only:
+// with the "verif" build tag off it is not compiled, with it on it adds no code.
+
+package compile
+
+// ---------------------------------------------------------------------------
+// Schema filters (C20). A filter is a pure predicate on schema nodes; apply_filter
+// (in /verif/spec/compile.smt2) is its value.
+
+//@ func type:SchemaFilter
+//@   params sn
+//@   nopanic
+//@   ensures result == apply_filter(fn, sn)
+
+//@ func IsConfig
+//@   implements type:SchemaFilter
+//@   nopanic
+//@   ensures result == node_config(sn)
+//@ func IsState
+//@   requires sn != nil
+//@   nopanic
+//@   ensures result == (!node_config(sn) && !(is(sn, schema.OpdCommand) || is(sn, schema.OpdArgument) || is(sn, schema.OpdOption)))
+//@ func IsOpd
+//@   nopanic
+//@   ensures result == (is(sn, schema.OpdCommand) || is(sn, schema.OpdArgument) || is(sn, schema.OpdOption))
+
+// Include(fs...)(n) holds iff some non-nil filter of fs accepts n; Exclude is its negation.
+//@ func Include$1
+//@   nopanic
+//@   ensures result == exists(i, 0, len(*filters), (*filters)[i] != nil && apply_filter((*filters)[i], sn))
+//@   loop 0 invariant forall(i, 0, loopidx+1, !((*filters)[i] != nil && apply_filter((*filters)[i], sn)))
+//@ func Exclude$1
+//@   nopanic
+//@   ensures result == !exists(i, 0, len(*filters), (*filters)[i] != nil && apply_filter((*filters)[i], sn))
+//@   loop 0 invariant forall(i, 0, loopidx+1, !((*filters)[i] != nil && apply_filter((*filters)[i], sn)))
+
+// Building children: every child that is returned passed the compiler's filter. The callees
+// build arbitrary schema nodes but never assign the filter (see the footprint obligation).
+//@ func (*Compiler).IgnoreNode
+//@   assumed
+//@   modifies *
+//@   preserves c.filter
+//@ func (*Compiler).BuildNode
+//@   assumed
+//@   modifies *
+//@   preserves c.filter
+//@ func (*Compiler).buildChildren
+//@   requires c != nil
+//@   modifies *
+//@   ensures forall(k, 0, len(result), old(c.filter) == nil || apply_filter(old(c.filter), result[k]))
+//@   ensures c.filter == old(c.filter)
+//@   loop 0 invariant c.filter == old(c.filter) && forall(k, 0, len(children), old(c.filter) == nil || apply_filter(old(c.filter), children[k]))
+//@   loop 1 invariant c.filter == old(c.filter) && forall(k, 0, len(children), old(c.filter) == nil || apply_filter(old(c.filter), children[k]))
+//@ func (*Compiler).error
+//@   assumed
+//@   modifies *
+//@   preserves c.filter
+//@ func (*Compiler).buildListChildren
+//@   requires c != nil
+//@   modifies *
+//@   ensures forall(k, 0, len(result), old(c.filter) == nil || apply_filter(old(c.filter), result[k]))
+//@   ensures c.filter == old(c.filter)
+//@   loop 0 invariant c.filter == old(c.filter) && forall(k, 0, len(children), old(c.filter) == nil || apply_filter(old(c.filter), children[k]))
+//@   loop 1 invariant c.filter == old(c.filter) && forall(k, 0, len(children), old(c.filter) == nil || apply_filter(old(c.filter), children[k]))
+//@   loop 2 invariant c.filter == old(c.filter) && forall(k, 0, len(children), old(c.filter) == nil || apply_filter(old(c.filter), children[k]))
